@@ -28,8 +28,12 @@ CHECKS = {
          "all surface mnemonics and macrobodies, facets per body, FILL-array length, IMP cards, material signs, --lattice "
          "syntax, m=-1 on TR card / inline FILL / inline TRCL, lattice without usable --lattice); each is injected into the "
          "valid base deck of its class and run through the real entry point with its un-injected control; TraceFault.tla: "
-         "control converts, injected run ends in a diagnostic raised by the repo, never finished, never an incidental error."),
-   technique='fault classes as actions of a TLA+ spec (Faults.tla) enumerated exhaustively by TLC; outcomes of the real entry point validated by TLC (TraceFault.tla)'),
+         "control converts, injected run ends in a diagnostic raised by the repo, never finished, never an incidental error. "
+         "FaultSites.tla then defines, for every valid generated deck of nine generator families, the fault records of every "
+         "applicable card (surfaces named by converted cells, macrobody leaves, used TR cards, inline FILL/TRCL "
+         "transformations, lattice cells, IMP and material cards); each record is applied to the abstract deck and judged "
+         "the same way."),
+   technique='fault classes as actions of a TLA+ spec (Faults.tla) enumerated exhaustively by TLC, and the fault sites of every generated deck defined by a TLA+ spec (FaultSites.tla) evaluated by TLC; outcomes of the real entry point validated by TLC (TraceFault.tla)'),
  'C10': dict(cat='model_checking', ref='6/C10',
    text=("GenMat.tla enumerates material cards (Z=1..118, mass numbers 000/001/typical/three digits, repeated nuclides, "
          "library suffixes, keyword entries, fractions of one sign or mixed, several spellings) and cell densities of both "
@@ -47,19 +51,25 @@ CHECKS = {
          "a pair listed first, planes optionally written with negated coefficients), ranges (negative, degenerate), fill "
          "arrays over {0, own universe, u2, u3} or FILL=n with --lattice, lattice and container transformations; TLC checks the "
          "declarative base-vector conditions (LatticeVecsOK) on every deck and TraceDeck.tla locates each probe point through "
-         "McnpSem.Locate's element lookup and compares owner, provenance (consistent element keys) and composition."),
+         "McnpSem.Locate's element lookup and compares owner, provenance (consistent element keys) and composition; every "
+         "third deck is also converted with the whole world moved by a general rigid motion (covariance)."),
    technique='TLA+ spec of lattice element lookup (McnpSem.Locate, GenLat.LatticeVecsOK) checked by TLC against conversions of TLC-generated lattice decks'),
  'C07': dict(cat='model_checking', ref='6/C07',
    text=("GenHex.tla builds LAT=2 unit cells from integer parallelogon hexagons (incl. the irregular hexagon of the "
          "converter's docstring) in five orientations with 6 or 8 planes, the pairs listed in any order and either plane "
-         "first, and states MCNP's index convention declaratively (HexVecsOK, checked by TLC on every deck); validation as C06."),
+         "first, and states MCNP's index convention declaratively (HexVecsOK, checked by TLC on every deck); validation as C06. "
+         "Regular hexagons in general orientation are reached by covariance: decks whose hexagon is an affine image of a "
+         "regular one are converted after the affine map (irrational normals) while TLC keeps the exact integer deck; "
+         "every third deck is also converted with the whole world moved by a general rigid motion."),
    technique='TLA+ spec of the hexagonal index convention (GenHex.HexVecsOK, McnpSem.Locate) checked by TLC against conversions of TLC-generated decks'),
  'C05': dict(cat='model_checking', ref='6/C05',
    text=("GenUniv.tla behaviours (nesting to depth 3, one universe reused in two containers, FILL transformations by "
          "number/inline/starred/3-entry incl. the explicit null translation, FILL without transformation following the "
          "container's TRCL, TRCL together with a FILL transformation, a filler with its own TRCL) are converted under sampled "
          "inline/dedup options; TraceDeck.tla locates every probe point by carrying it down the hierarchy (McnpSem.Locate) "
-         "and compares owner and (filler, container) provenance with the written file."),
+         "and compares owner and (filler, container) provenance with the written file; every third deck is also converted "
+         "with the whole world (every frame) moved by a general rigid motion, and every third deck is renumbered (fixed maps "
+         "or a member of the family of Numberings.tla admissible for the deck)."),
    technique='TLA+ spec of hierarchical point location (McnpSem.Locate) checked by TLC against conversions of TLC-generated universe decks'),
  'C09': dict(cat='model_checking', ref='6/C09',
    text=("Universe, Boolean and LIKE-BUT decks are decorated with materials and densities drawn from value classes in several "
@@ -71,8 +81,10 @@ CHECKS = {
    text=("Each generated deck (universes/FILL and Boolean) is converted under all 8 flag combinations and sampled inline "
          "thresholds; every output is validated by TraceDeck.tla against the single reference meaning (owner, provenance, "
          "composition of every probe point), so all outputs agree pairwise; the number of decks whose outputs differ "
-         "textually is reported."),
-   technique='one TLA+ reference meaning per deck (McnpSem) validated by TLC against the outputs of every option set'),
+         "textually is reported. PipelineD.tla / PipelineD2.tla (deterministic transcriptions of the Boolean core over "
+         "duplicate classes and of FILL development + inlining + cell references) are model-checked for EVERY option set "
+         "(MeaningPreserved, InlineSound, Wellformed) and every behaviour is replayed into the real entry point."),
+   technique='one TLA+ reference meaning per deck (McnpSem) validated by TLC against the outputs of every option set; deterministic TLA+ transcriptions of the passes (PipelineD, PipelineD2) model-checked by TLC and replayed into the real code'),
  'C15': dict(cat='model_checking', ref='6/C15',
    text=("GenLike.tla enumerates base cells and BUT lists (subsets of MAT, RHO, IMP, FILL, U plus TRCL, LIKE-of-LIKE) and "
          "defines ExpandLike; each abstract deck is written with LIKE cards and with explicit cards, both are converted, the "
